@@ -18,7 +18,10 @@
        PREPAREs and COMMITs: a run at whose end all of Q have committed (C05_synchronised_view_change_commits_partial,
        with one hypothesis about the model's authenticity bookkeeping for members that are prepared; without it when
        nobody is prepared and the leader holds no early vote: C05_synchronised_view_change_commits_fresh; non-vacuity:
-       C05_fresh_view_change_example).
+       C05_fresh_view_change_example);
+     - timeouts in lockstep: while the leader of the next view is none of them, their votes are lost and they time out
+       again, all together; the first view led by one of them commits, and by round robin that is one of the next n
+       views (C05_lockstep_timeouts_commit_within_n_views for members that are not prepared; C05_lockstep_example).
    Of half (a) - that the timeouts bring them into one view TOGETHER - only the arithmetic core is proved, in an abstract timed picture that is NOT connected to World.v (which
    has no clock: election triggers are free events): with T = the CalcTimeout model, members that leave views by their
    own timeouts keep a constant distance between their entry times, so once T(v) covers that distance plus what a view
@@ -28,7 +31,7 @@
    every fair order. The harness's liveness stream runs the real nodes from random adversarial prefixes through a timely
    schedule and searches for a stall. *)
 From Coq Require Import Lia.
-From LH Require Import Prims Quorum QuorumFacts Contexts Msg Term TermFacts AbsSafety Own Accept World Live LiveWorld LiveWorldEx WorldKF1 Timeout Sync Elect LiveElect LiveElectEx.
+From LH Require Import Prims Quorum QuorumFacts Contexts Msg Term TermFacts AbsSafety Own Accept World Live LiveWorld LiveWorldEx WorldKF1 Timeout Sync Elect LiveElect LiveRound LiveElectEx.
 Open Scope N_scope.
 
 Theorem C05_good_view_commits_partial :
@@ -256,3 +259,29 @@ Theorem C05_fresh_view_change_example :
                         t_committed (tc_t (nstate 1 cm4 cfg4 nowm noshut fresh0 lead1 i (stuck_run ++ ext))) = true.
 Proof. exact fresh_view_change_example. Qed.
 Print Assumptions C05_fresh_view_change_example.
+
+(* ---- timeouts in lockstep reach a view that commits (LiveRound.v) ----
+   [idle u run]: every member of Q is in view u, not prepared, and holds no vote for a later view *)
+Theorem C05_lockstep_timeouts_commit_within_n_views :
+  forall (H : N) (cm : committee), total cm < W64 ->
+  forall (honest : N -> bool) (cfg : N -> ncfg), (forall i, c_me (cfg i) = i) ->
+  forall st_wm st_shut st_fresh st_lead (Q : list N),
+  NoDup Q -> (forall i, In i Q -> good cm honest i) -> isQ_ids cm Q = true ->
+  (forall i j, In i Q -> In j Q -> c_inst (cfg i) = c_inst (cfg j)) ->
+  (forall i l, In i Q -> exists j, In j Q /\ j <> i /\ j <> l) ->
+  forall u run, wrun H cm honest cfg st_wm st_shut st_fresh st_lead run -> Q <> [] ->
+  u + N.of_nat (length cm) + 1 < W64 ->
+  idle H cm cfg st_wm st_shut st_fresh st_lead Q u run ->
+  exists ext, wrun H cm honest cfg st_wm st_shut st_fresh st_lead (run ++ ext) /\
+    (forall g, In g ext -> In (fst g) Q) /\
+    forall i, In i Q -> t_committed (tc_t (nstate H cm cfg st_wm st_shut st_fresh st_lead i (run ++ ext))) = true.
+Proof. exact lockstep_timeouts_commit_within_n_views. Qed.
+Print Assumptions C05_lockstep_timeouts_commit_within_n_views.
+
+(* from the very start of a height in the four-member world: two rounds of timeouts (the leader of view 1 is the
+   Byzantine member), then view 2 commits at all three correct members *)
+Theorem C05_lockstep_example :
+  exists ext, wrun 1 cm4 honest4 cfg4 nowm noshut fresh0 lead1 ([] ++ ext) /\
+    forall i, In i Q3 -> t_committed (tc_t (nstate 1 cm4 cfg4 nowm noshut fresh0 lead1 i ([] ++ ext))) = true.
+Proof. exact lockstep_example. Qed.
+Print Assumptions C05_lockstep_example.
